@@ -293,7 +293,7 @@ func c18BigReader(r *rand.Rand, idx int) Case {
 func init() {
 	register(&Prop{
 		ID:   "C18",
-		Rule: "histories of 1-25 steps over 3 names (so re-adds occur) and 3 tags: AddDocument / AddDocumentFromReader (YAML) / AddUnnamedDocument with options in {none, WithTags, MergeTags, MustCreate}, given in random order (the same tags also split over two WithTags), interleaved with TaggedSubset(ts) (incl. '*', an unknown tag and the empty request), AsOne() (must equal TaggedSubset('*')), NamedDocument(n) (incl. unknown names). After every step the return status / LayerNames + every layer's content / served document vs the Coq model and vs a Go-side plain reference; no query may panic. An eighth of the histories are mostly unnamed adds (more than ten generated names); reader adds are sometimes preceded by a rejected add of undecodable text. An eighth of the cases: the pipeline template function mergeFiles over 1-3 YAML files = their ordered append-merge. Non-trivial: history re-adds a name successfully. Distinct by Gallina term.",
+		Rule: "histories of 1-25 steps over 3 names (so re-adds occur) and 3 tags: AddDocument / AddDocumentFromReader (YAML) / AddUnnamedDocument with options in {none, WithTags, MergeTags, MustCreate}, given in random order (the same tags also split over two WithTags), interleaved with TaggedSubset(ts) (incl. '*', an unknown tag and the empty request), AsOne() (must equal TaggedSubset('*')), NamedDocument(n) (incl. unknown names). After every step the return status / LayerNames + every layer's content / served document vs the Coq model and vs a Go-side plain reference; no query may panic. An eighth of the histories are mostly unnamed adds (more than ten generated names); reader adds are sometimes preceded by a rejected add of undecodable text. An eighth of the cases: the pipeline template function mergeFiles over 1-3 YAML files = their ordered append-merge. Non-trivial: history re-adds a name successfully. Distinct by Gallina term. A third of the histories use tags that contain one another; re-adds sometimes pass the very document object that is stored; every 128th case adds a reader source of more than a mebibyte (YAML or JSON).",
 		Gen: func(r *rand.Rand, tier string, idx int) Case {
 			if idx%8 == 7 { // the pipeline template function mergeFiles: a document set of files, merged in order
 				o := defaultOpts()
